@@ -263,8 +263,10 @@ def refinement_findings(repo, short, qualname):
     findings = []
     ref_atoms = {_norm_atom(a) for p in rt for a in p.atoms if not a.startswith("more(")}
     cur_atoms = {_norm_atom(a) for p in ct for a in p.atoms if not a.startswith("more(")}
-    gone = sorted(a for a in ref_atoms - cur_atoms if not a.startswith("raises("))
-    new = sorted(a for a in cur_atoms - ref_atoms if not a.startswith("raises("))
+    sk_ref = {_skel(a) for a in ref_atoms}
+    sk_cur = {_skel(a) for a in cur_atoms}
+    gone = sorted(a for a in ref_atoms - cur_atoms if not a.startswith("raises(") and _skel(a) not in sk_cur)
+    new = sorted(a for a in cur_atoms - ref_atoms if not a.startswith("raises(") and _skel(a) not in sk_ref)
     if gone and new:
         findings.append(("condition-replaced", f"{gone[0]} -> {new[0]}", None,
                          f"the reviewed condition(s) {gone} no longer occur; the function now tests {new} instead (a weaker / stronger / different condition decides the same cases)"))
